@@ -717,3 +717,22 @@ add("C19", "revert: jsonpath resolves Dialect through the lazy package hook", "s
     "    from sqlglot.dialects.dialect import Dialect\n", "    from sqlglot.dialects import Dialect\n", "C19.f")
 add("C19", "dialect module imports sibling dialects through the package hook", "sqlglot/dialects/athena.py",
     "from sqlglot.dialects.trino import Trino\nfrom sqlglot.dialects.hive import Hive\n", "from sqlglot.dialects import Hive, Trino\n", "C19.f")
+
+# benign refactors of code guarded by the newer rules: must stay silent
+add("C05", "benign: JSON path bound check written as `not (start < size)`", "sqlglot/jsonpath.py",
+    "            if start >= size:\n", "            if not (start < size):\n", "silent", 0)
+add("C05", "benign: conversion guarded in an and-chain", "sqlglot/generators/hive.py",
+    "            if size_expression and is_int(size_expression.name):\n                size = int(size_expression.name)\n",
+    "            size = size_expression and is_int(size_expression.name) and int(size_expression.name)\n            if size:\n", "silent", 0)
+add("C08", "benign: looked-up alias copied into a local first", "sqlglot/optimizer/qualify_tables.py",
+    "                    column.set(\"table\", table_alias.copy())",
+    "                    alias_copy = table_alias.copy()\n                    column.set(\"table\", alias_copy)", "silent", 0)
+add("C18", "benign: typed lookup mutates a private copy of the registered columns", SCHEMA,
+    "                schema = {\n                    col: self._to_data_type(dtype) if isinstance(dtype, str) else dtype\n                    for col, dtype in schema.items()\n                }\n",
+    "                schema = dict(schema)\n                for col, dtype in list(schema.items()):\n                    if isinstance(dtype, str):\n                        schema[col] = self._to_data_type(dtype)\n", "silent", 0)
+add("C19", "benign: jsonpath imports the dialect module and takes the attribute", "sqlglot/jsonpath.py",
+    "    from sqlglot.dialects.dialect import Dialect\n", "    import sqlglot.dialects.dialect as _dialect_mod\n\n    Dialect = _dialect_mod.Dialect\n", "silent", 0)
+add("C07", "benign: indent splits on a separator held in a variable (not decided, no alarm)", G,
+    "        lines = sql.split(\"\\n\")", "        newline = \"\\n\"\n        lines = sql.split(newline)", "silent", 0)
+add("C13", "benign: fast path line count through a local helper variable", "sqlglot/tokenizer_core.py",
+    "                if newlines:\n                    self._line += newlines\n", "                if newlines:\n                    extra_lines = newlines\n                    self._line += extra_lines\n", "silent", 0)
